@@ -13,6 +13,12 @@ case = {"started": bool, "ops": [op, ...]}
        ["fire", j, ok]          callback / errback external Deferred j
        ["cstop"] ["cstart"]     Cooperator.stop() / start()
 
+Optional "react": {"<k>": reaction}: what the callback on whenDone/coiterate Deferred number k does when it fires —
+RE-ENTRANTLY, i.e. inside _completeWith / Cooperator.stop() / whenDone():
+       ["add", script, co]   hand a new task to the same Cooperator        ["fire", j, ok]   fire Deferred j
+       ["resume", t]         resume task t
+(cases with reactions are outside the Coq model: oracle only)
+
 Observation: for every op "/" followed by its events in order, each terminated by ";":
   a<t>     next() called on the iterator of task t
   d<k>:<r> whenDone/coiterate Deferred number k (request order) fired; r = I (the iterator) | S (TaskStopped)
@@ -143,10 +149,56 @@ def impl(case) -> str:
     its, handles, codone = [], [], []
     nwd = [0]
 
+    reacts = case.get("react") or {}
+
     def watch(d, t):
         k = nwd[0]
         nwd[0] += 1
-        d.addBoth(lambda r: evs.append(f"d{k}:{res(r, its[t])}"))
+
+        def cb(r):
+            evs.append(f"d{k}:{res(r, its[t])}")
+            rx = reacts.get(str(k))
+            if rx is not None:
+                if rx[0] == "add":
+                    do_add(rx[1], rx[2])
+                elif rx[0] == "fire":
+                    do_fire(rx[1], rx[2])
+                elif rx[1] < len(handles) and handles[rx[1]] is not None:
+                    try:
+                        handles[rx[1]].resume()
+                    except task.SchedulerError as e:
+                        evs.append("r" + excs.get(type(e), "!?"))
+        d.addBoth(cb)
+
+    def do_add(script, co):
+        t = len(its)
+        it = It(t, script)
+        its.append(it)
+        if co:
+            handles.append(None)
+            codone.append(None)
+            d = coop.coiterate(it)
+            codone[t] = d
+            watch(d, t)
+        else:
+            handles.append(None)
+            codone.append(None)
+            handles[t] = coop.cooperate(it)
+
+    def do_fire(j, ok):
+        d = getd(j)
+        if j not in resolved:
+            resolved.add(j)
+            if j in resolve:
+                resolve[j](ok)
+            elif ok:
+                d.callback(None)
+            else:
+                d.errback(TFailure(DefFail(j)))
+            # what is left in the application's Deferred after the task's callbacks ran
+            if isinstance(d.result, TFailure) and not d.result.check(DefFail):
+                evs.append(f"e{j}" if d.result.check(task.NotPaused) else f"e{j}?{d.result.type.__name__}")
+                d.addErrback(lambda f: None)
 
     excs = {task.TaskDone: "!D", task.TaskStopped: "!S", task.TaskFailed: "!F",
             task.SchedulerStopped: "!X", task.NotPaused: "!N"}
@@ -161,17 +213,7 @@ def impl(case) -> str:
         evs.clear()
         k = op[0]
         if k == "add":
-            t = len(its)
-            it = It(t, op[1])
-            its.append(it)
-            if op[2]:
-                handles.append(None)
-                d = coop.coiterate(it)
-                codone.append(d)
-                watch(d, t)
-            else:
-                handles.append(coop.cooperate(it))
-                codone.append(None)
+            do_add(op[1], op[2])
         elif k in ("wd", "pause", "resume", "stop"):
             t = op[1]
             if t < len(handles) and handles[t] is not None:
@@ -192,20 +234,7 @@ def impl(case) -> str:
                 units[0] = op[1]
                 dc.f()
         elif k == "fire":
-            j, ok = op[1], op[2]
-            d = getd(j)
-            if j not in resolved:
-                resolved.add(j)
-                if j in resolve:
-                    resolve[j](ok)
-                elif ok:
-                    d.callback(None)
-                else:
-                    d.errback(TFailure(DefFail(j)))
-                # what is left in the application's Deferred after the task's callbacks ran
-                if isinstance(d.result, TFailure) and not d.result.check(DefFail):
-                    evs.append(f"e{j}" if d.result.check(task.NotPaused) else f"e{j}?{d.result.type.__name__}")
-                    d.addErrback(lambda f: None)
+            do_fire(op[1], op[2])
         elif k == "cstop":
             coop.stop()
         elif k == "cstart":
@@ -256,22 +285,26 @@ class _T:
         self.appends = 0
 
 
+class _Out(Exception):
+    """the history left the property's domain (an unmatched resume())"""
+
+
 def oracle(case, obs):
     try:
         groups, fin = parse(obs)
     except Exception:
         return Failure(case, "malformed observation", "log")
     ops = case["ops"]
+    reacts = case.get("react") or {}
     if len(groups) != len(ops):
         return Failure(case, "malformed observation (op count)", "log")
     T: list[_T] = []
     dstate = {}
     waiter = {}               # j -> task
-    started, stopped = case["started"], False
+    st = {"started": case["started"], "stopped": False, "nwd": 0}
     pending = False
     fired = {}                # wd id -> result letter
-    nwd = 0
-    ntotal = sum(1 for o in ops if o[0] == "add")
+    ntotal = sum(1 for o in ops if o[0] == "add") + sum(1 for r in reacts.values() if r[0] == "add")
 
     def runnable(x):
         return x.fin is None and x.upause == 0 and x.waiting is None
@@ -284,7 +317,8 @@ def oracle(case, obs):
         for y in T:
             if y is not x and runnable(y):
                 y.appends += 1
-        if stopped:
+        if st["stopped"]:
+            # handed to a stopped (or stopping) Cooperator: completed with SchedulerStopped
             finish(x, "X", "!X")
 
     def left_list(x):
@@ -292,157 +326,185 @@ def oracle(case, obs):
             if y is not x and runnable(y):
                 y.removals += 1
 
-    for n, (op, es) in enumerate(zip(ops, groups)):
-        where = f"op {n} {op} -> {es}: "
-        k = op[0]
-        expect_exc = None
-        before = {i: x.fin for i, x in enumerate(T)}
-        cause = k
-        if any(e.startswith(("a",)) for e in es) and k != "tick":
-            return Failure(case, where + "an iterator was advanced outside a scheduler tick", "advance-outside-tick")
-        if k == "add":
-            x = _T(op[1], op[2])
-            T.append(x)
-            if op[2]:
-                x.wds.append(nwd)
-                nwd += 1
+    def do_add(script, co):
+        x = _T(script, co)
+        T.append(x)
+        if co:
+            x.wds.append(st["nwd"])
+            st["nwd"] += 1
+        became_runnable(x)
+
+    def do_fire(j, ok):
+        if j not in dstate:
+            dstate[j] = ok
+            x = waiter.pop(j, None)
+            if x is not None:
+                x.waiting = None
+                if ok:
+                    if x.fin is None and x.upause == 0:
+                        became_runnable(x)
+                elif x.fin is None:
+                    finish(x, f"F{j}", "!F")
+
+    def do_resume(x):
+        """returns the expected exception tag or None"""
+        if x.upause == 0:
+            if x.fin is None and x.waiting is None:
+                return "!N"
+            raise _Out()       # resume() without a matching pause(): outside the property's histories
+        x.upause -= 1
+        if x.fin is None and x.upause == 0 and x.waiting is None:
             became_runnable(x)
-        elif k in ("wd", "pause", "resume", "stop"):
-            t = op[1]
-            if t < len(T) and not T[t].co:
-                x = T[t]
-                if k == "wd":
-                    x.wds.append(nwd)
-                    nwd += 1
-                elif k == "pause":
-                    if x.fin is not None:
-                        expect_exc = x.fin_exc
-                    else:
-                        was = runnable(x)
-                        x.upause += 1
-                        if was:
-                            left_list(x)
-                elif k == "stop":
-                    if x.fin is not None:
-                        expect_exc = x.fin_exc
-                    else:
-                        was = runnable(x)
-                        finish(x, "S", "!S")
-                        if was:
-                            left_list(x)
-                else:
-                    if x.upause == 0:
-                        if x.fin is None and x.waiting is None:
-                            expect_exc = "!N"
-                        else:
-                            return None  # resume() without a matching pause(): outside the property's histories
-                    else:
-                        x.upause -= 1
-                        if x.fin is None and x.upause == 0 and x.waiting is None:
-                            became_runnable(x)
-        elif k == "fire":
-            j, ok = op[1], op[2]
-            if j not in dstate:
-                dstate[j] = ok
-                x = waiter.pop(j, None)
-                if x is not None:
-                    x.waiting = None
-                    if ok:
-                        if x.fin is None and x.upause == 0:
-                            became_runnable(x)
-                    elif x.fin is None:
-                        finish(x, f"F{j}", "!F")
-        elif k == "cstop":
-            stopped = True
-            for x in T:
-                if runnable(x):
-                    finish(x, "X", "!X")
-        elif k == "cstart":
-            stopped, started = False, True
-        elif k == "tick":
-            advs = [int(e[1:]) for e in es if e.startswith("a")]
-            if not pending and advs:
-                return Failure(case, where + "work done without a scheduled call", "tick-unscheduled")
-            if len(advs) > max(op[1], 1):
-                return Failure(case, where + "more work units than the terminator allows", "tick-units")
-            if pending:
-                pending = False
-                if not advs and any(runnable(x) for x in T):
-                    return Failure(case, where + "a tick with runnable tasks advanced none", "tick-idle")
-            for t in advs:
-                if t >= len(T):
-                    return Failure(case, where + "unknown task advanced", "log")
-                x = T[t]
-                if not runnable(x):
-                    why = ("finished" if x.fin is not None else "paused" if x.upause else "waiting on a Deferred")
-                    return Failure(case, where + f"task {t} advanced while {why}", "advanced-while-" + why.split()[0])
-                for y in T:
-                    if y is not x and runnable(y):
-                        y.wait_units += 1
-                        bound = ntotal * (1 + y.removals) + y.appends
-                        if y.wait_units > bound:
-                            return Failure(case, where + f"task {T.index(y)} stayed runnable for {y.wait_units} work "
-                                           f"units of other tasks without being advanced (bound {bound})", "starved")
-                x.wait_units, x.removals, x.appends = 0, 0, 0
-                if x.i >= len(x.script):
-                    finish(x, "I", "!D")
+        return None
+
+    def advance(t, where):
+        if t >= len(T):
+            return Failure(case, where + "unknown task advanced", "log")
+        x = T[t]
+        if not runnable(x):
+            why = ("finished" if x.fin is not None else "paused" if x.upause else "waiting on a Deferred")
+            return Failure(case, where + f"task {t} advanced while {why}", "advanced-while-" + why.split()[0])
+        for y in T:
+            if y is not x and runnable(y):
+                y.wait_units += 1
+                bound = ntotal * (1 + y.removals) + y.appends
+                if y.wait_units > bound:
+                    return Failure(case, where + f"task {T.index(y)} stayed runnable for {y.wait_units} work "
+                                   f"units of other tasks without being advanced (bound {bound})", "starved")
+        x.wait_units, x.removals, x.appends = 0, 0, 0
+        if x.i >= len(x.script):
+            finish(x, "I", "!D")
+            left_list(x)
+        else:
+            a = x.script[x.i]
+            x.i += 1
+            if a == "r":
+                finish(x, "R", "!F")
+                left_list(x)
+            elif a != "y":
+                j = a[1]
+                if j not in dstate:
+                    x.waiting = j
+                    waiter[j] = x
                     left_list(x)
+                elif dstate[j]:
+                    left_list(x)          # pause() + immediate resume(): moves to the end of the list
+                    became_runnable(x)
                 else:
-                    a = x.script[x.i]
-                    x.i += 1
-                    if a == "r":
-                        finish(x, "R", "!F")
-                        left_list(x)
-                    elif a != "y":
-                        j = a[1]
-                        if j not in dstate:
-                            x.waiting = j
-                            waiter[j] = x
-                            left_list(x)
-                        elif dstate[j]:
-                            left_list(x)          # pause() + immediate resume(): moves to the end of the list
-                            became_runnable(x)
+                    finish(x, f"F{j}", "!F")
+                    left_list(x)
+        return None
+
+    try:
+        for n, (op, es) in enumerate(zip(ops, groups)):
+            where = f"op {n} {op} -> {es}: "
+            k = op[0]
+            expect_exc = None
+            before = {i: x.fin for i, x in enumerate(T)}
+            cause = k
+            if any(e.startswith("r!") for e in es):
+                return None        # a reaction's resume() raised: unmatched resume, outside the property's histories
+            if any(e.startswith(("a",)) for e in es) and k != "tick":
+                return Failure(case, where + "an iterator was advanced outside a scheduler tick", "advance-outside-tick")
+            if k == "add":
+                do_add(op[1], op[2])
+            elif k in ("wd", "pause", "resume", "stop"):
+                t = op[1]
+                if t < len(T) and not T[t].co:
+                    x = T[t]
+                    if k == "wd":
+                        x.wds.append(st["nwd"])
+                        st["nwd"] += 1
+                    elif k == "pause":
+                        if x.fin is not None:
+                            expect_exc = x.fin_exc
                         else:
-                            finish(x, f"F{j}", "!F")
-                            left_list(x)
-        # ---- events of this op against the bookkeeping
-        got_exc = [e for e in es if e.startswith("!")]
-        if (expect_exc is not None and got_exc != [expect_exc]) or (expect_exc is None and got_exc):
-            tag = "finished-op-wrong-exception" if expect_exc and expect_exc != "!N" else "op-exception"
-            return Failure(case, where + f"expected {expect_exc or 'no exception'}, got {got_exc or 'none'}", tag)
-        if any(e.startswith("e") for e in es):
-            return Failure(case, where + "an error was left in the application's Deferred", "deferred-error")
-        for e in es:
-            if e.startswith("d"):
-                kk, r = e[1:].split(":")
-                kk = int(kk)
-                if kk in fired:
-                    return Failure(case, where + f"whenDone Deferred {kk} fired twice", "whendone-twice")
-                fired[kk] = r
-        for i, x in enumerate(T):
-            for kk in x.wds:
-                if x.fin is None and kk in fired:
-                    return Failure(case, where + f"whenDone Deferred {kk} of unfinished task {i} fired", "whendone-early")
-                if x.fin is not None and kk not in fired:
-                    c = cause if before.get(i) is None else "late"
-                    return Failure(case, where + f"task {i} finished ({x.fin}) but its whenDone Deferred {kk} did not fire",
-                                   "whendone-not-fired-after-" + {"cstop": "coop-stop"}.get(c, c))
-                if x.fin is not None and fired[kk] != x.fin:
-                    return Failure(case, where + f"whenDone Deferred {kk} of task {i} fired with {fired[kk]}, expected {x.fin}",
-                                   "whendone-result")
-        for e in es:
-            if e == "s":
+                            was = runnable(x)
+                            x.upause += 1
+                            if was:
+                                left_list(x)
+                    elif k == "stop":
+                        if x.fin is not None:
+                            expect_exc = x.fin_exc
+                        else:
+                            was = runnable(x)
+                            finish(x, "S", "!S")
+                            if was:
+                                left_list(x)
+                    else:
+                        expect_exc = do_resume(x)
+            elif k == "fire":
+                do_fire(op[1], op[2])
+            elif k == "cstop":
+                st["stopped"] = True
+                for x in T:
+                    if runnable(x):
+                        finish(x, "X", "!X")
+            elif k == "cstart":
+                st["stopped"], st["started"] = False, True
+            elif k == "tick":
+                advs = [int(e[1:]) for e in es if e.startswith("a")]
+                if not pending and advs:
+                    return Failure(case, where + "work done without a scheduled call", "tick-unscheduled")
+                if len(advs) > max(op[1], 1):
+                    return Failure(case, where + "more work units than the terminator allows", "tick-units")
                 if pending:
-                    return Failure(case, where + "scheduled twice", "double-schedule")
-                pending = True
-            elif e == "c":
-                pending = False
-            elif e.startswith("c?"):
-                return Failure(case, where + "cancelled a call that was not pending", "cancel-dead-call")
-        want = started and any(runnable(x) for x in T)
-        if pending != want:
-            return Failure(case, where + ("runnable tasks but no scheduled call" if want else "scheduled call without runnable tasks"),
-                           "not-scheduled-while-runnable" if want else "scheduled-without-work")
+                    pending = False
+                    if not advs and any(runnable(x) for x in T):
+                        return Failure(case, where + "a tick with runnable tasks advanced none", "tick-idle")
+            # ---- events of this op, in order: advances, completion Deferreds (and what their callbacks do)
+            for e in es:
+                if e.startswith("a"):
+                    f = advance(int(e[1:]), where)
+                    if f is not None:
+                        return f
+                elif e.startswith("d"):
+                    kk, r = e[1:].split(":")
+                    kk = int(kk)
+                    if kk in fired:
+                        return Failure(case, where + f"whenDone Deferred {kk} fired twice", "whendone-twice")
+                    fired[kk] = r
+                    rx = reacts.get(str(kk))
+                    if rx is not None:
+                        if rx[0] == "add":
+                            do_add(rx[1], rx[2])
+                        elif rx[0] == "fire":
+                            do_fire(rx[1], rx[2])
+                        elif rx[1] < len(T) and not T[rx[1]].co:
+                            if do_resume(T[rx[1]]) is not None:
+                                raise _Out()
+            got_exc = [e for e in es if e.startswith("!")]
+            if (expect_exc is not None and got_exc != [expect_exc]) or (expect_exc is None and got_exc):
+                tag = "finished-op-wrong-exception" if expect_exc and expect_exc != "!N" else "op-exception"
+                return Failure(case, where + f"expected {expect_exc or 'no exception'}, got {got_exc or 'none'}", tag)
+            if any(e.startswith("e") for e in es):
+                return Failure(case, where + "an error was left in the application's Deferred", "deferred-error")
+            for i, x in enumerate(T):
+                for kk in x.wds:
+                    if x.fin is None and kk in fired:
+                        return Failure(case, where + f"whenDone Deferred {kk} of unfinished task {i} fired", "whendone-early")
+                    if x.fin is not None and kk not in fired:
+                        c = cause if before.get(i) is None else "late"
+                        return Failure(case, where + f"task {i} finished ({x.fin}) but its whenDone Deferred {kk} did not fire",
+                                       "whendone-not-fired-after-" + {"cstop": "coop-stop"}.get(c, c))
+                    if x.fin is not None and fired[kk] != x.fin:
+                        return Failure(case, where + f"whenDone Deferred {kk} of task {i} fired with {fired[kk]}, expected {x.fin}",
+                                       "whendone-result")
+            for e in es:
+                if e == "s":
+                    if pending:
+                        return Failure(case, where + "scheduled twice", "double-schedule")
+                    pending = True
+                elif e == "c":
+                    pending = False
+                elif e.startswith("c?"):
+                    return Failure(case, where + "cancelled a call that was not pending", "cancel-dead-call")
+            want = st["started"] and any(runnable(x) for x in T)
+            if pending != want:
+                return Failure(case, where + ("runnable tasks but no scheduled call" if want else "scheduled call without runnable tasks"),
+                               "not-scheduled-while-runnable" if want else "scheduled-without-work")
+    except _Out:
+        return None
     # final reports
     for i, x in enumerate(T):
         want = "-" if x.fin is None else (_CO if x.co else x.fin)
@@ -463,8 +525,9 @@ def oracle(case, obs):
 def normalize(case):
     """Deferred ids are yielded at most once in a case (one waiter per Deferred)."""
     used = set()
-    for op in case["ops"]:
-        if op[0] == "add":
+    adds = [op for op in case["ops"] if op[0] == "add"] + [r for r in (case.get("react") or {}).values() if r[0] == "add"]
+    for op in adds:
+        if True:
             for a in op[1]:
                 if a not in ("y", "r"):
                     if a[1] in used:
@@ -561,6 +624,42 @@ def gen(rng, tier):
                 ops = [["add", [[kind, 0], "y", "y"], False]] + ([["add", ["y", "y", "y"], False]] if other else []) + \
                       [["wd", 0], ["tick", 1], ["tick", 2], ["tick", 3], ["fire", 0, ok], ["tick", 3], ["tick", 3]]
                 cases.append({"started": True, "ops": ops})
+    # RE-ENTRANT whenDone callbacks (oracle only): the callback of a completion Deferred hands a new task to the same
+    # Cooperator / fires the Deferred another task waits on / resumes a paused task — while Cooperator.stop(),
+    # task.stop(), a tick or whenDone() itself is still running
+    rxs = [["add", ["y", "y"], False], ["add", ["y"], True], ["add", [["d", 7], "y"], True], ["fire", 0, True],
+           ["fire", 0, False], ["resume", 2]]
+    for rx in rxs:
+        for trigger in (["cstop"], ["stop", 0], ["tick", 5]):
+            for later in ([], [["cstart"], ["tick", 5], ["tick", 5]]):
+                ops = [["add", ["y"], False], ["add", [["d", 0], "y"], False], ["add", ["y", "y"], False], ["add", ["y"], False],
+                       ["wd", 0], ["wd", 1], ["wd", 2], ["wd", 3], ["tick", 2], ["pause", 2], trigger] + later + \
+                      [["wd", 1], ["wd", 2]]
+                for kk in (0, 3):
+                    cases.append({"started": True, "ops": ops, "react": {str(kk): rx}})
+                cases.append({"started": True, "ops": ops, "react": {"0": rx, "3": rxs[(rxs.index(rx) + 1) % len(rxs)],
+                                                                     "4": ["add", ["y"], True]}})
+    for i in range(150 if tier == "quick" else 4000):
+        c = _random_case(rng, rng.randrange(8, 40), balanced=True)
+        nreq = sum(1 for o in c["ops"] if o[0] == "wd" or (o[0] == "add" and o[2]))
+        if nreq == 0:
+            continue
+        nt = sum(1 for o in c["ops"] if o[0] == "add")
+        react = {}
+        nextj = [100]
+        for _ in range(rng.randrange(1, 4)):
+            kk = rng.randrange(nreq + 1)
+            r = rng.random()
+            if r < 0.45:
+                react[str(kk)] = ["add", _script(rng, nextj, 3), rng.random() < 0.4]
+            elif r < 0.75:
+                react[str(kk)] = ["fire", rng.randrange(0, 6), rng.random() < 0.6]
+            else:
+                react[str(kk)] = ["resume", rng.randrange(max(nt, 1))]
+        if not any(o[0] == "cstop" for o in c["ops"]) and rng.random() < 0.6:
+            c["ops"].insert(rng.randrange(len(c["ops"]) // 2, len(c["ops"]) + 1), ["cstop"])
+        c["react"] = react
+        cases.append(c)
     # bounded-exhaustive: short histories over a small alphabet on three fixed tasks
     alpha = [["tick", 1], ["tick", 2], ["pause", 0], ["resume", 0], ["stop", 1], ["fire", 0, True], ["fire", 0, False],
              ["cstop"], ["cstart"], ["wd", 1], ["pause", 1], ["resume", 1]]
@@ -593,6 +692,9 @@ def corpus():
         # already-fired Deferreds whose chain is suspended, resolved later with failure / success
         {"started": True, "ops": [["add", [["sc", 0], "y"], False], ["add", [["sp", 1], "y"], False], ["wd", 0], ["wd", 1],
                                   ["tick", 2], ["tick", 2], ["tick", 2], ["fire", 0, False], ["fire", 1, True], ["tick", 4]]},
+        # a whenDone callback hands a follow-up task to the Cooperator while Cooperator.stop() is running
+        {"started": True, "ops": [["add", ["y"], False], ["add", ["y"], False], ["wd", 0], ["cstop"], ["cstart"], ["tick", 3]],
+         "react": {"0": ["add", ["y"], True]}},
         # removal during the round: the next task is skipped once, never starved
         {"started": True, "ops": [["add", [], False], ["add", ["y", "y"], False], ["add", ["y", "y"], False],
                                   ["tick", 1], ["tick", 1], ["tick", 1], ["tick", 5]]},
@@ -601,8 +703,8 @@ def corpus():
 
 
 def to_coq(case):
-    if normalize(case) is None:
-        return None
+    if normalize(case) is None or case.get("react"):
+        return None           # re-entrant whenDone callbacks are outside the Coq model (oracle only)
 
     def act(a):
         return "AYield" if a == "y" else "ARaise" if a == "r" else f"AYieldDef {a[1]}"
@@ -664,6 +766,8 @@ def shrink(case):
                 yield {**case, "ops": rest}
         else:
             yield {**case, "ops": ops[:i] + ops[i + 1:]}
+    for kk in list(case.get("react") or {}):
+        yield {**case, "react": {a: b for a, b in case["react"].items() if a != kk}}
     for i, o in enumerate(ops):
         if o[0] == "add" and o[1]:
             yield {**case, "ops": ops[:i] + [["add", o[1][:-1], o[2]]] + ops[i + 1:]}
@@ -674,6 +778,8 @@ def shrink(case):
 def histogram(case, obs):
     n = sum(1 for o in case["ops"] if o[0] == "add")
     kinds = set(o[0] for o in case["ops"])
+    if case.get("react"):
+        return f"reentrant-callbacks cstop={'y' if 'cstop' in kinds else 'n'}"
     return f"tasks={n} cstop={'y' if 'cstop' in kinds else 'n'} fire={'y' if 'fire' in kinds else 'n'}"
 
 
@@ -692,12 +798,15 @@ SPEC = Spec(
          "tasks; random histories of 5-45 calls over <= 8 tasks (scripts of plain yields, Deferred yields, raise), ticks of "
          "1-20 work units, Deferreds fired with success or failure before or after being yielded, yielded Deferreds that are already fired "
          "but whose chain is suspended (chained to an unfired Deferred / paused) and resolved later either way, balanced pause/resume, "
-         "plus a stream with unmatched resume() (correspondence only); non-trivial = at least two work units and one "
+         "plus a stream with unmatched resume() (correspondence only); plus (oracle only, outside the Coq model) RE-ENTRANT "
+         "whenDone callbacks that add a task / fire a Deferred / resume a task from inside Cooperator.stop(), task.stop(), a "
+         "tick or whenDone() (108 targeted + random histories); non-trivial = at least two work units and one "
          "completion Deferred fired; distinct by (case, observation)",
     trusted=["hand-written model coq/C11/Model.v (tied by this correspondence run only)",
              "the model is of the code WITH fixes/C11-coop-stop-copy.patch and fixes/C11-faillater-after-finish.patch",
-             "callbacks attached by the harness only record; re-entrant calls into the Cooperator from iterators or "
-             "from whenDone callbacks are not modelled; each Deferred is yielded by at most one task"],
+             "re-entrant calls into the Cooperator from whenDone callbacks are exercised on the implementation and judged by the "
+             "oracle only (not in the Coq model); calls from inside iterators are not exercised; each Deferred is yielded by at "
+             "most one task"],
     assumptions=["Deferred.addCallbacks on a fired Deferred runs the callback immediately, on an unfired one when it fires "
                  "(C01/C03)", "the scheduler calls back only when the history says so (Tick); the terminator is a unit count"],
 )
